@@ -1096,14 +1096,15 @@ func genFunctionWrapper(n *node) func(*frame) reflect.Value {
 
 		return reflect.MakeFunc(funcType, func(in []reflect.Value) []reflect.Value {
 			// Allocate and init local frame. All values to be settable and addressable.
-			id := f.runid()
-			if f.anc == nil || f.live() {
-				// A function of the global frame, or a function value created by an
-				// evaluation which was not cancelled, may be called long after its wrapper
-				// was created, possibly after a cancelled evaluation: the call belongs to
-				// the current run.
-				verifGoStart(n.interp, 3)
-				id = n.interp.callID()
+			// A function of the global frame, or a function value created by an
+			// evaluation which was not cancelled, may be called long after its wrapper
+			// was created, possibly after a cancelled evaluation: the call belongs to
+			// the current run. The run id is read first: if the evaluation is cancelled
+			// in between, either the id read is its own, or the frame is not live.
+			id := n.interp.callID()
+			verifGoStart(n.interp, 3)
+			if f.anc != nil && !f.live() {
+				id = f.runid()
 			}
 			fr := newFrame(f, len(def.types), id)
 			if f.anc == nil {
@@ -2077,16 +2078,19 @@ func getFunc(n *node) {
 		fr := f.clone()
 		fct := reflect.MakeFunc(n.typ.TypeOf(), func(in []reflect.Value) []reflect.Value {
 			// Allocate and init local frame. All values to be settable and addressable.
-			id := fr.runid()
-			if fr.live() {
-				// A closure created by an evaluation which was not cancelled may be called
-				// after the cancellation of another one: the call belongs to the current
-				// run, not to the one which created the closure.
-				verifGoStart(n.interp, 3)
-				id = n.interp.callID()
+			// A closure created by an evaluation which was not cancelled may be called
+			// after the cancellation of another one: the call belongs to the current
+			// run, not to the one which created the closure. The run id is read first:
+			// if the evaluation is cancelled in between, either the id read is its own,
+			// or the frame is not live.
+			id := n.interp.callID()
+			verifGoStart(n.interp, 3)
+			live := fr.live()
+			if !live {
+				id = fr.runid()
 			}
 			fr2 := newFrame(fr, len(n.types), id)
-			if fr.live() {
+			if live {
 				// The closure keeps the cancellation channel of the evaluation which
 				// created it: use the current one.
 				n.interp.mutex.RLock()
